@@ -21,6 +21,25 @@ use tokio::{
 };
 use tracing::{error, trace};
 
+/// Writes the batch header and payload, all of it: a single `write_vectored` call may accept only
+/// a part of the data (`tokio::fs::File` takes at most 2 MiB per call).
+pub(super) async fn write_all_vectored(
+    file: &mut File,
+    header: &[u8],
+    payload: &[u8],
+) -> std::io::Result<()> {
+    let mut slices = [IoSlice::new(header), IoSlice::new(payload)];
+    let mut remaining = &mut slices[..];
+    while !remaining.is_empty() {
+        let written = file.write_vectored(remaining).await?;
+        if written == 0 {
+            return Err(std::io::ErrorKind::WriteZero.into());
+        }
+        IoSlice::advance_slices(&mut remaining, written);
+    }
+    Ok(())
+}
+
 /// A dedicated struct for writing to the log file.
 #[derive(Debug)]
 pub struct SegmentLogWriter {
@@ -133,9 +152,7 @@ impl SegmentLogWriter {
         if let Some(ref mut file) = self.file {
             let header = batch_to_write.header_as_bytes();
             let batch_bytes = batch_to_write.bytes;
-            let slices = [IoSlice::new(&header), IoSlice::new(&batch_bytes)];
-
-            file.write_vectored(&slices)
+            write_all_vectored(file, &header, &batch_bytes)
                 .await
                 .with_error_context(|error| {
                     format!("Failed to log to file: {}. {error}", self.file_path)
